@@ -9,6 +9,11 @@ Go runtime's view (`R …`), exactly in the format of `harness/engines/attrs.go`
 The property oracle (`attrsSpec`) looks only at the implementation's answer: the two vectors it reports
 must be equal, the runtime must not have rejected the element, and the facts must satisfy the side
 conditions under which the theorems of `PCV.Props.C04` are stated.
+
+`view` / `rawdef` ops belong to the reference-free view walker (harness/engines/attrs_view.go): the
+generator records the outcome of the parallel walk in the op and `model` echoes it; the verdict
+(`fails view-differs …`) comes from `spec` reading the implementation's own answer. `cfeat` / `cdflt`
+compare `protoutil.ResolveCustomFeature` / `GetCustomFeatureDefault` with `customResolve` / `customDefault`.
 -/
 namespace PCV.Engines
 open PCV.Wire PCV.FieldAttrs
@@ -279,10 +284,38 @@ def fileAnswer (path : String) (m : List (String × String)) : Option String := 
 
 def isHexWord (s : String) : Bool := (bytesOfHex s).isSome
 
+/-- `x=<hex>`: the outcome of the view walk recorded by the generator (this clause has no Lean reference) -/
+def echoOf (w : String) : String :=
+  if w.startsWith "x=" then
+    match bytesOfHex (w.drop 2).toString with
+    | some bs => match String.fromUTF8? (ByteArray.mk bs.toArray) with
+      | some s => s
+      | none => "bad-op"
+    | none => "bad-op"
+  else "bad-op"
+
+def parseTable (s : String) : Option (List (Nat × String)) :=
+  if s == "-" then some [] else
+  (s.splitOn ",").mapM fun t => match t.splitOn ":" with
+    | [e, v] => e.toNat?.map fun e => (e, v)
+    | _ => none
+
+/-- `v=<value>` expected for `cfeat` / `cdflt` -/
+def customAnswer (isDefault : Bool) (m : List (String × String)) : Option String := do
+  let ed ← (← get m "ed").toNat?
+  let tab ← parseTable (← get m "dflt")
+  let r ← if isDefault then pure (customDefault ed tab) else do
+    let ch ← get m "chain"
+    let chain := (ch.splitOn "/").map fun t => if t == "-" then none else some t
+    pure (customResolve ed chain tab)
+  pure ("v=" ++ r.getD "err")
+
 def model (line : String) : String :=
   match words line with
   | ["src", _, h] => if isHexWord h then "ok" else "bad-op"
   | ["compile"] => "ok"
+  | ["view", _, x] => echoOf x
+  | ["rawdef", _, h, x] => if isHexWord h then echoOf x else "bad-op"
   | ["camel", h] => match bytesOfHex h with
     | some bs => hexName (jsonCamelCase (nameOfBytes bs))
     | none => "bad-op"
@@ -302,6 +335,8 @@ def model (line : String) : String :=
           s!"L {showOneof o (isSyntheticL o)} R {showOneof o (isSyntheticR o)}"
         else if kind == "mtd" then methodAnswer name m
         else if kind == "file" then fileAnswer name m
+        else if kind == "cfeat" then customAnswer false m
+        else if kind == "cdflt" then customAnswer true m
         else none
       r.getD "bad-op"
   | _ => "bad-op"
@@ -360,6 +395,17 @@ def spec (line ans : String) : String :=
     else "skip"
   | kind :: name :: rest =>
     if kind == "src" || kind == "camel" || kind == "dflt" then "skip" else
+    if kind == "view" || kind == "rawdef" then
+      -- the view walker's own oracle: both implementations must agree
+      if ans == "same" then "holds"
+      else if ans.startsWith "differ " then "fails view-differs " ++ (ans.drop 7).toString
+      else if ans.startsWith "skipped-" || ans == "both-reject" || ans.startsWith "compiler-rejects" then "skip"
+      else "fails bad-answer"
+    else if kind == "cfeat" || kind == "cdflt" then
+      match (kvs rest).bind (customAnswer (kind == "cdflt")) with
+      | some want => if ans == want then "holds" else s!"fails custom-feature-differs impl={ans} expected={want}"
+      | none => "fails bad-facts"
+    else
     if ans == "same" then "holds" else
     if ans.startsWith "differ" then "fails default-differs " ++ ans else
     match splitLR (words ans), kvs rest with
